@@ -1,4 +1,5 @@
 import TinsModel.Checksum.Lemmas
+import TinsModel.Checksum.CrcLemmas
 /-
   Property C05 — fields libtins derives are correct on the wire.  Theorems only; helper lemmas live in
   TinsModel/Checksum/Lemmas*.lean.
@@ -191,5 +192,20 @@ theorem icmpv6_checksum_verifies (src dst buf : Bytes) (hs : src.length = 16) (h
     (by rw [pseudo6_len]; omega) (by rw [hle, hb]; exact le_be_mod _) (by rw [hle, hb]; exact le_be_zero _)
     (by omega) h0 h1
   simp [this]
+
+/-! ## Part 2 — CRC-32 (RadioTap frame check sequence) -/
+
+/-- **`Utils::crc32` is the IEEE 802.3 CRC-32**: the nibble-table routine with the table found in the source
+    (`Gen/Crc.lean`, regenerated on every run) equals the bit-by-bit definition (reflected polynomial
+    0xEDB88320, preset all ones, complemented result) on every input.  The 16 table entries are checked by
+    `decide` (`table_entries`); `nibble_step` lifts them to all register values. -/
+theorem crc32_table_spec (data : Bytes) : crc32 data = Spec.crcBitwise data := by
+  unfold crc32 Spec.crcBitwise
+  have h0 : BitVec.ofNat 32 Gen.crcInit = 0xFFFFFFFF#32 ^^^ allOnes32 := by decide
+  rw [h0, fold_corr]; rfl
+
+/-- the standard check value: CRC-32("123456789") = 0xCBF43926 -/
+example : crc32 [0x31, 0x32, 0x33, 0x34, 0x35, 0x36, 0x37, 0x38, 0x39] = 0xCBF43926#32 := by decide +kernel
+example : Spec.crcBitwise [0x31, 0x32, 0x33, 0x34, 0x35, 0x36, 0x37, 0x38, 0x39] = 0xCBF43926#32 := by decide +kernel
 
 end Tins.Props.C05
